@@ -135,6 +135,28 @@ class Evaluator:
         inl = self._inline_helper(f, args, kw)
         if inl is not None:
             return inl
+        fn = f[1] if f[0] == "ref" else None
+        # x.__getitem__(k) is x[k]
+        if f[0] == "attr" and f[2] == "__getitem__" and len(args) == 1 and not kw:
+            return ("sub", f[1], args[0])
+        # map(f, xs) is the generator (f(x) for x in xs)
+        if fn == "builtins.map" and len(args) == 2 and not kw and args[0][0] != "lambda":
+            callee = args[0]
+            body = ("sub", callee[1], T.elem(args[1])) if callee[0] == "attr" and callee[2] == "__getitem__" else ("call", callee, (T.elem(args[1]),), ())
+            return ("comp", "gen", body, ((args[1], "_"),), ())
+        # tuple(<generator>) is (*<generator>,); list(<generator>) / set(<generator>) are the comprehensions
+        if fn in ("builtins.tuple", "builtins.list", "builtins.set") and len(args) == 1 and not kw and args[0][0] == "comp" and args[0][1] == "gen":
+            g = args[0]
+            if fn == "builtins.tuple":
+                return ("tuple", (("star", g),))
+            return ("comp", fn.rsplit(".", 1)[1], g[2], g[3], g[4])
+        # class tuples hoisted into module-level constants of the package read like the literal tuple
+        if fn in ("builtins.isinstance", "builtins.issubclass", "typelib.py.inspection._safe_issubclass") and len(args) == 2 and not kw:
+            cl = args[1]
+            if cl[0] == "ref" and cl[1].startswith("typelib.") or (cl[0] == "tuple" and any(x[0] == "star" for x in cl[1])):
+                items = flatten_display(self.prog, cl)
+                if items is not None and not any(x[0] == "star" for x in items):
+                    args = (args[0], ("tuple", tuple(items)))
         return ("call", f, args, kw)
 
     def _const_display(self, t):
@@ -210,10 +232,18 @@ class Evaluator:
         return ("tuple", tuple(self.expr(x, env) for x in e.elts))
 
     def e_List(self, e, env):
-        return ("list", tuple(self.expr(x, env) for x in e.elts))
+        items = tuple(self.expr(x, env) for x in e.elts)
+        if len(items) == 1 and items[0][0] == "star" and items[0][1][0] == "comp" and items[0][1][1] == "gen":
+            g = items[0][1]
+            return ("comp", "list", g[2], g[3], g[4])  # [*(f(x) for x in xs)] is [f(x) for x in xs]
+        return ("list", items)
 
     def e_Set(self, e, env):
-        return ("set", tuple(self.expr(x, env) for x in e.elts))
+        items = tuple(self.expr(x, env) for x in e.elts)
+        if len(items) == 1 and items[0][0] == "star" and items[0][1][0] == "comp" and items[0][1][1] == "gen":
+            g = items[0][1]
+            return ("comp", "set", g[2], g[3], g[4])
+        return ("set", items)
 
     def e_Dict(self, e, env):
         return ("dict", tuple((self.expr(k, env) if k is not None else None, self.expr(v, env)) for k, v in zip(e.keys, e.values)))
